@@ -71,6 +71,9 @@ def train_case(case):
     if data_id >= 10:            # Douglas with 3 cut points: several initialisations so that non-involutive cut orders occur
         variant, data_id = data_id - 10, 1
     n, d = (5, 2) if data_id == 0 else (6, 3)
+    coinciding = data_id == 2          # all sizes equal: n == d == n_clusters == n_hidden_dim (shape-based dispatch and axis mix-ups of square arrays)
+    if coinciding:
+        n, d = 4, 4
     X = seams.tiny_data(n, d, seed + data_id)
     kw = dict(solver=solver, max_iter=max_iter, learning_rate=lr, random_state=seed)
     if family not in ("RIM", "KernelRIM"):
@@ -81,6 +84,10 @@ def train_case(case):
     kw["n_clusters"] = 3 if data_id == 0 else 2
     if family in M.HAS_HIDDEN:
         kw["n_hidden_dim"] = 4 if data_id == 0 else 5
+    if coinciding:
+        kw["n_clusters"] = 4
+        if family in M.HAS_HIDDEN:
+            kw["n_hidden_dim"] = 4
     if family == "Douglas":
         kw["n_cuts"] = 1 if data_id == 0 else (3 if variant in (1, 2, 3, 4) else 2)
         kw["random_state"] = seed + variant
@@ -213,6 +220,13 @@ def explorers(tier, seed):
                 for bs in ([None] if family == "CategoricalModel" else [2, None]):
                     for data_id in ((0, 20) if family in ("SparseLinearModel", "SparseMLPModel") and solver == "adam" else (0,)):
                         cases.append((family, gem, solver, bs, False, data_id, 3, 0.1, seed, route))
+    for family in FAMILIES:
+        if family == "Douglas":
+            continue
+        for gem in (["mi"] if family in ("RIM", "KernelRIM") else ["mmd_ovo", "kl_ova", "wasserstein_ova"]):
+            for bs in ([None] if family == "CategoricalModel" else [2, 4, None]):
+                for decorated in (False, True):
+                    cases.append((family, gem, "sgd", bs, decorated, 2, 3, 0.1, seed))
     for family in FAMILIES:
         gem = "mi" if family in ("RIM", "KernelRIM") else ("mmd_ova" if FAMILIES.index(family) % 2 else "tv_ovo")
         for bs in ([None] if family == "CategoricalModel" else [2, None]):
